@@ -304,6 +304,11 @@ def run(tier):
     for j in range(4 if tier == "quick" else 24):
         insts.append(dict(id=5000 + j, seed=int(rng.integers(0, 2 ** 31 - 1)), n=2, m=4, prob="nl", restarts=["hard", "hardnew", "soft", "hard"][j % 4], maxunsucc=20, rhoend=1e-2,
                           maxfun=int(rng.integers(250, 400)), incnpt=1, maxnpt_over=int(rng.integers(1, 5))))
+    # the set grown direction by direction towards more than n+1 points, from a start on the bounds (in the documented domain: a result, not an exception)
+    for j in range(160 if tier == "quick" else 1200):
+        nn = 2 if j % 3 else 3
+        insts.append(dict(id=6000 + j, seed=int(rng.integers(0, 2 ** 31 - 1)), n=nn, m=nn + int(rng.integers(0, 3)), prob=["lin", "nl"][j % 2], bounds="both", bscale=1.5,
+                          x0place=[str(rng.choice(["L", "in", "L"])) for _ in range(nn)], npt="2n+1", growing=1, maxfun=40, rhoend=1e-3, scaling=bool(j % 4 == 0)))
     tcov, _ = sc.trace_part("C07", insts, V, os.path.join(wd, "traces"))
     # a hang observed in a whole-solver corpus (liveness of the real code) is also a C07 matter: covered by the trace checks' `terminates` clause
     cov = dict(states=r["distinct"] + mcov["states"], transitions=r["generated"] + mcov["transitions"], model_runs=mcov["model_runs"],
